@@ -57,6 +57,8 @@ def configs(out, quick, rng):
             ("socket-fullqueue", b"socket:" + o + b"/sock", ["sock", "fill"]), ("devlog-fullqueue", b"devlog", ["devlog", "fill"]),
             ("devlog-absent", b"devlog", []), ("file-relative", b"file:relative.log", []),
             # the log socket is a STREAM listener (syslog-ng's unix-stream("/dev/log")) whose daemon is not accepting, backlog full
+            # another process holds an advisory lock on the log file and does not let go (a log shipper or rotation job under flock(1))
+            ("file-locked-by-another-process", b"file:" + o + b"/locked.log", ["locked"]),
             ("devlog-stream-listener-stalled", b"devlog", ["devlog", "stream"]), ("socket-stream-listener-stalled", b"socket:" + o + b"/sock", ["sock", "stream"]),
             # the caller has a controlling terminal: as the foreground job, and as a background job (`cmd &`), where terminal
             # operations other than a plain write stop the process with SIGTTOU
@@ -165,7 +167,13 @@ def worker(args):
     os_ = trace.OneShot(ctx.run, _W["build"], "w%d" % idx)
     rng = random.Random(ctx.seed * 131 + idx)
     fails = []
+    held = []
     for cfg in cfgs:
+        if "locked" in cfg["state"] and not held:
+            import fcntl
+            lf = open(os_.out + "/locked.log", "ab")
+            fcntl.flock(lf, fcntl.LOCK_EX)
+            held.append(lf)             # kept until this worker ends
         ops = scenario_ops(cfg, os_.out)
         os_.write_scenario(ops)
         rc, events = os_.run_traced([], timeout=20)
